@@ -321,6 +321,14 @@ def rule_provenance(ctx: Ctx, typed: Typed):
                     pv = pv or Prov(ctx, typed, mod, fn, summaries)
                     if isinstance(kw.value, ast.Dict):
                         for kk, vv in zip(kw.value.keys, kw.value.values):
+                            if kk is None:
+                                # {**other, ...}: the splatted mapping is text of the same match only if it is that match's groupdict()
+                                okg = isinstance(vv, ast.Call) and isinstance(vv.func, ast.Attribute) and vv.func.attr == "groupdict" \
+                                    and isinstance(vv.func.value, ast.Name) and vv.func.value.id in pv.match
+                                n_stores += 1
+                                ctx.ob("R-C17-1", f"{qual}/metadata[**{norm(vv)[:30]}]", okg,
+                                       f"`**{norm(vv)[:40]}` merged into the metadata must be the groupdict of a match over the text next to the citation", node=vv, mod=mod)
+                                continue
                             f = kk.value if isinstance(kk, ast.Constant) else norm(kk)
                             if f in NON_TEXTUAL:
                                 continue
